@@ -1,0 +1,10 @@
+//go:build verif
+
+package utils
+
+// Contracts for the verification framework in /verif (comment-only file, build tag `verif`).
+
+// MergeLabels builds a fresh map and touches nothing else.
+//@ trusted func MergeLabels
+//@   modifies nothing
+//@   ensures result != nil && fresh(result)
